@@ -44,6 +44,8 @@ pub struct GenCfg {
     pub cancel_mix: bool,
     pub leak_check: bool,
     pub keep_results: bool,
+    /// Per mille weight of creating and dropping a standard-stream handle.
+    pub w_stdio: u64,
 }
 
 impl GenCfg {
@@ -71,6 +73,7 @@ impl GenCfg {
             cancel_mix: true,
             leak_check: true,
             keep_results: true,
+            w_stdio: 0,
         }
     }
 }
@@ -321,12 +324,26 @@ pub fn run_history(cfg: &GenCfg, seed: u64, index: u64, rep: &mut Report) {
     let mut interrupts = 0u64;
     let mut drops_in_flight = 0u64;
     let mut completions = 0u64;
-    let total_w = cfg.w_new + cfg.w_poll + cfg.w_spurious_poll + cfg.w_drop + cfg.w_ring_poll + cfg.w_complete + cfg.w_bookkeeping + cfg.w_drop_results;
+    let total_w = cfg.w_new + cfg.w_poll + cfg.w_spurious_poll + cfg.w_drop + cfg.w_ring_poll + cfg.w_complete + cfg.w_bookkeeping + cfg.w_drop_results + cfg.w_stdio;
     for _step in 0..cfg.steps {
         if w.poisoned {
             break;
         }
         let mut x = rng.below(total_w);
+        if x < cfg.w_stdio {
+            // Standard-stream handles must never close their descriptor.
+            let sq = w.sq.as_ref().unwrap().clone();
+            let which = rng.below(3);
+            alloc::a10(|| match which {
+                0 => drop(a10::io::stdin(sq)),
+                1 => drop(a10::io::stdout(sq)),
+                _ => drop(a10::io::stderr(sq)),
+            });
+            w.ev(format!("stdio:{which}"));
+            rep.cell("stdio-handle-dropped");
+            continue;
+        }
+        x -= cfg.w_stdio;
         let live: Vec<usize> = (0..w.slots.len()).filter(|i| w.slots[*i].op.is_some()).collect();
         // --- new op
         if x < cfg.w_new {
@@ -590,9 +607,26 @@ pub fn report_fd_leaks(w: &mut World) {
             };
             found.push((sig, format!("descriptor {fd} ({what}) still open after everything was dropped")));
         }
-        // Direct descriptors still installed in a live table cannot be judged
-        // here (the table dies with the ring); objects never closed while the
-        // ring existed are reported by the C07 scenarios.
+        // Direct descriptors that were never closed while their ring existed.
+        let mut dids: Vec<u64> = k.direct_files.iter().filter(|(_, open)| **open).map(|(d, _)| *d).collect();
+        dids.sort();
+        for did in dids {
+            let creator = k.direct_creator.get(&did).and_then(|r| k.reqs.get(r));
+            let Some(r) = creator else { continue };
+            if r.owner <= 1 {
+                continue; // The world's own direct descriptor.
+            }
+            let owner_dropped = w.slots.iter().any(|s| s.id == r.owner && s.state == SlotState::Dropped && s.dropped_in_flight);
+            let uncollected = w.slots.iter().any(|s| s.id == r.owner && s.state == SlotState::Dropped && !s.dropped_in_flight);
+            let sig = if owner_dropped {
+                format!("direct-leak-abandoned-op:{}", op_name(r.sqe.opcode()))
+            } else if uncollected {
+                format!("direct-leak-uncollected-op:{}", op_name(r.sqe.opcode()))
+            } else {
+                format!("direct-leak:{}", op_name(r.sqe.opcode()))
+            };
+            found.push((sig, format!("direct descriptor object {did} created by {} was never closed while its ring existed", r.sqe.describe())));
+        }
     }
     for (sig, d) in found {
         w.violation("C07", sig, d);
